@@ -165,7 +165,7 @@ func replay(prop, key string) int {
 	r := core.NewResult(prop)
 	p.Run(c, r)
 	fmt.Fprintf(os.Stderr, "replay %s %q: evaluations=%d violations=%d\n", prop, key, r.Evaluations, len(r.Violations))
-	if r.Evaluations == 0 {
+	if r.Evaluations == 0 && len(r.Violations) == 0 {
 		fmt.Fprintln(os.Stderr, "replay: no scenario with that key")
 		return 2
 	}
